@@ -46,6 +46,9 @@ CHECKS = {
     "C12": ("differential property-based testing of a parser on untrusted bytes: header-shape generator with single perturbations + exhaustive small word strings + every truncation, against an independent validator; accessor agreement as a metamorphic check",
             "MessageView::new's verdict is compared with an independent validator on perturbed headers, arbitrary strings, every prefix of valid messages and every string of up to 6 (8) words over {0,1,2,3,u32::MAX}; on accepted views all accessors are exercised at indices 0..N+2 and usize::MAX and must agree with each other and with the reference parse, with values tiling the payload by address.",
             "Trusts refimpl/tlv_ref.rs.", "DESIGN.md §5 C12"),
+    "C13": ("schedule- and reads-from-generating property testing: the harness owns the scheduler (baton between OS threads at every hooked atomic/lock operation) and a view-based release/acquire memory model; schedules and stale-read choices are proptest values (shrinkable, replayable); bounded-preemption schedules enumerated exhaustively",
+            "Tens of thousands (millions in thorough) of generated (thread programs, schedule, reads-from choices) executions of the real AtomicBaseTime code against a harness-owned memory model that produces the stale reads release/acquire permits; snapshots must be whole pairs, never go backwards per thread, be at least as recent as everything that happens-before them, and the writers' effects must equal a sequential replay in lock order; every schedule with <= 2 (3) preemptions for four fixed programs is enumerated.",
+            "Promise-free RA fragment (sound: no false alarms; load-buffering not generated); <= 3 (4) threads x <= 3 (4) operations; hook: vouched_time/verif-hooks.", "DESIGN.md §5 C13"),
     "C14": ("differential property-based testing against i128 reference arithmetic, with a boundary-biased generator and a complete grid of window edges x anchor times",
             "Hundreds of thousands (tens of millions in thorough) of generated (local time, base time, voucher) triples around both window edges, the epoch (including negative sub-millisecond times), the calendar limits and base times near 0 / 2^63 / 2^64, with correct, off-by-one, foreign-parameter and random vouchers; accept/reject compared with the rule evaluated in i128; plus a complete edge grid and now() with a provider answering clock - diff.",
             "Local milliseconds are the floor of the local time; voucher validity decided by the raffle crate with the crate's CHECK string.", "DESIGN.md §5 C14"),
@@ -58,6 +61,9 @@ CHECKS = {
     "C17": ("fault-injection property testing: scripted reader faults (short reads, EINTR, EOF, hard errors) enumerated exhaustively up to a script length and generated randomly beyond, against a reference read loop written from the documentation",
             "All fault scripts up to length 4 (5) x 7 counts x 6 attempt limits x 5 (entry point, arena state) pairs are enumerated, plus random scripts and sequences of encode_read/decode_read calls; the instrumented reader records the buffer size of every call, and the result, call count, offered sizes, error kind and final codec output are compared with the reference.",
             "Readers never deliver more than their buffer; reference codec of C07.", "DESIGN.md §5 C17"),
+    "C18": ("fault-schedule enumeration + property testing on the C13 scheduler: writers are suspended forever at every hooked step (exhaustively for small programs, randomly beyond) and a solo caller must finish alone within a step budget without lock operations",
+            "Every suspension point of one writer doing two updates and of two concurrent writers is enumerated for snapshot / sequence / try_update callers (and observe_file_time vs get_base_time_unlocked on the process-wide cell), plus random programs, suspension points and stale reads; the solo caller must complete while all peers stay frozen, take no lock (readers) or exactly one try_lock (try_update), need exactly four loads when nothing completes during its read, and try_update must return false while a suspended writer holds the lock.",
+            "Liveness as bounded termination under frozen peers; hook: vouched_time/verif-hooks.", "DESIGN.md §5 C18"),
     "C20": (_IOVEC + " with two models (one per side of a clone/take) and the live-chunk registry",
             "Generated prefix, clone()/take(), then generated suffixes interleaved over both sides (optionally dropping one side first); each side is compared with its own model after every operation and all exposed slices are address-checked with quarantine on, so interference through shared slices, anchors, arena cache or backrefs shows up as a content, size or liveness mismatch.",
             "Clone only with no placeholder pending (the property's own precondition). Hook: owning_iovec/verif-hooks.", "DESIGN.md §5 C20"),
